@@ -125,6 +125,10 @@ class Action(BaseForm):
 
     def __init__(self, left, right):
         """Initialise."""
+        if hasattr(self, "_left"):
+            # __new__ returned an existing Action (identity argument simplification):
+            # Python calls __init__ on it again, leave it as it is
+            return
         BaseForm.__init__(self)
 
         self._left = left
